@@ -205,6 +205,13 @@ def check_particle_dispatch(ctx):
                 got.setdefault(unparse(x.targets[0]), [])
                 if s not in got[unparse(x.targets[0])]:
                     got[unparse(x.targets[0])].append(s)
+    # statements that rebind the constructor argument before it is stored (`if min_occurrences is None: min_occurrences = 1`) belong to the computation
+    for attr_, param_ in (('self.min_occurrences', 'min_occurrences'), ('self.max_occurrences', 'max_occurrences')):
+        if attr_ in got:
+            rel = [s for s in init.node.body if s in got[attr_] or (any(isinstance(x, ast.Name) and x.id == param_ for x in ast.walk(s)) and
+                                                                    not any(isinstance(x, ast.Call) for x in ast.walk(s) if isinstance(x, ast.Call) and
+                                                                            not (isinstance(x.func, ast.Name) and x.func.id in ('int', 'str', 'isinstance'))))]
+            got[attr_] = rel
     _check_occ_default(res, init, got.get('self.min_occurrences'), 'min_occurrences', False)
     _check_occ_default(res, init, got.get('self.max_occurrences'), 'max_occurrences', True)
     # get_xsd_indicator: complexType children
